@@ -27,8 +27,60 @@ pub(crate) fn escape_html_quote(s: &str) -> Cow<'_, str> {
     })
 }
 
+const HEX_DIGITS: [char; 16] = [
+    '0', '1', '2', '3', '4', '5', '6', '7', '8', '9', 'a', 'b', 'c', 'd', 'e', 'f',
+];
+
+/// Generate a JavaScript string literal (valid in both sloppy and strict mode).
 pub(crate) fn gen_lit_str(s: &str) -> String {
-    format!("{:?}", s)
+    let mut ret = String::new();
+    ret.push('"');
+    for c in s.chars() {
+        match c {
+            '"' => {
+                ret.push('\\');
+                ret.push('"');
+            }
+            '\\' => {
+                ret.push('\\');
+                ret.push('\\');
+            }
+            '\n' => {
+                ret.push('\\');
+                ret.push('n');
+            }
+            '\r' => {
+                ret.push('\\');
+                ret.push('r');
+            }
+            '\t' => {
+                ret.push('\\');
+                ret.push('t');
+            }
+            '\u{2028}' | '\u{2029}' => {
+                ret.push('\\');
+                ret.push('u');
+                ret.push('2');
+                ret.push('0');
+                ret.push('2');
+                ret.push(if c == '\u{2028}' { '8' } else { '9' });
+            }
+            _ => {
+                let code = c as u32;
+                if code < 0x20 || code == 0x7f {
+                    // never `\0`: it would form a legacy octal escape with a following digit
+                    ret.push('\\');
+                    ret.push('x');
+                    ret.push(HEX_DIGITS[(code / 16) as usize]);
+                    ret.push(HEX_DIGITS[(code % 16) as usize]);
+                } else {
+                    ret.push(c);
+                }
+            }
+        }
+    }
+    ret.push('"');
+    ret
 }
 
 pub(crate) fn dash_to_camel(s: &str) -> CompactString {
